@@ -24,7 +24,8 @@ SPEC = dict(
          'signature / configuration values) is identical to the content of the authentic response; a timeout of the asynchronous request counts as refusal. '
          'Every case first runs the authentic exchange, which must deliver the content the reference put into the response. Flip / truncation / splice cases are '
          'chunks of 256 bit positions / 128 lengths. '
-         'PDUs carrying an error payload next to the ordinary payload (bad MAC, no header and MAC, no MAC, authentic MAC; error payload after or in front).',
+         'PDUs carrying an error payload next to the ordinary payload (bad MAC, no header and MAC, no MAC, authentic MAC; error payload after or in front). '
+         'The other service (extender for aggregator cases and the reverse) is pinned to another MAC algorithm throughout.',
     bounds=dict(
         quick='Part A: all 13 key lengths x SHA-256 x blocking TCP x 3 login ids, plus all 4 algorithms x keys {1,64,65,65535} x 4 clients x 2 login ids; 5 of the 12 '
               'aggregation contents. Part B: authentic + all structural deviations for every (kind, version, client); every bit of every response kind (v2 and v1) '
